@@ -292,7 +292,14 @@ class PoolWorld:
         self.pending_violation = None
         self.issued_tids = []
         self.max_live = 0
-        sched = ObsScheduler(working_dir, cores)
+        from .sock import TimeProxy
+
+        _t, _c = L.time, TimeProxy.clock
+        L.time, TimeProxy.clock = TimeProxy, self.clock  # the scheduler reads the clock when it is created
+        try:
+            sched = ObsScheduler(working_dir, cores)
+        finally:
+            L.time, TimeProxy.clock = _t, _c
         sched.task_states = observed_states(sched.task_states, self)
         sched._world = self
         self.sched = sched
@@ -304,6 +311,13 @@ class PoolWorld:
         L.asyncio = PROXY
         PROXY._table = self.table
         OS_PROXY._table = self.table
+        # every clock the pool reads is the simulated one (the pool derives its first task id from time.time())
+        from .sock import TimeProxy
+
+        self._saved_time = L.time
+        self._saved_proxy_clock = TimeProxy.clock
+        L.time = TimeProxy
+        TimeProxy.clock = self.clock
         self._saved_os = L.__dict__.get("os")
         if self._saved_os is not None:
             L.os = OS_PROXY
@@ -313,6 +327,10 @@ class PoolWorld:
 
     def __exit__(self, *exc):
         L.asyncio = self._saved_asyncio
+        from .sock import TimeProxy
+
+        L.time = self._saved_time
+        TimeProxy.clock = self._saved_proxy_clock
         PROXY._table = None
         OS_PROXY._table = None
         if self._saved_os is not None:
